@@ -388,12 +388,40 @@ def build_T16d(tree):
 
 
 # ---------------------------------------------------------------- T16e: loop-carried state of the query loops
+def _scoped_names(node, ctx_type):
+    """names loaded / stored in `node`; the variables of a comprehension are local to it (Python 3 scoping) and are
+    left out, everything else a comprehension reads is a read of the enclosing scope"""
+    out = set()
+
+    def go(n, bound):
+        if isinstance(n, (ast.ListComp, ast.SetComp, ast.GeneratorExp, ast.DictComp)):
+            b = set(bound)
+            for gi, gen in enumerate(n.generators):
+                go(gen.iter, b if gi else bound)
+                b |= {x.id for x in ast.walk(gen.target) if isinstance(x, ast.Name)}
+                for c in gen.ifs:
+                    go(c, b)
+            for e in ([n.key, n.value] if isinstance(n, ast.DictComp) else [n.elt]):
+                go(e, b)
+            return
+        if isinstance(n, ast.Lambda):
+            raise Unsupported('lambda in a query loop')
+        if isinstance(n, ast.Name):
+            if isinstance(n.ctx, ctx_type) and n.id not in bound:
+                out.add(n.id)
+            return
+        for c in ast.iter_child_nodes(n):
+            go(c, bound)
+    go(node, set())
+    return out
+
+
 def _loads(node):
-    return {n.id for n in ast.walk(node) if isinstance(n, ast.Name) and isinstance(n.ctx, ast.Load)}
+    return _scoped_names(node, ast.Load)
 
 
 def _stores(node):
-    return {n.id for n in ast.walk(node) if isinstance(n, ast.Name) and isinstance(n.ctx, ast.Store)}
+    return _scoped_names(node, ast.Store)
 
 
 def _exposed(stmts, defined):
@@ -473,14 +501,65 @@ def build_T16e(tree):
     return t, hashlib.sha256('\n'.join(shas).encode()).hexdigest()
 
 
+def _build_T16f_volumetric(tree):
+    """The graphic-type block of the volumetric query: the stored graphic types of ALL the reference items of the branch's value
+    type are read into the branch's enumeration, the entry is `graphic_type in found_gts`.
+      Gen.volumetricGraphicEntry (is2d any2d any3d : Bool) : Bool
+    any2d / any3d = some SCOORD / SCOORD3D reference item has the graphic type asked for."""
+    meth = 'get_volumetric_roi_measurement_groups'
+    fn = find_func(tree, f'MeasurementReport.{meth}')
+    loop = [s for s in strip_doc(fn.body) if isinstance(s, ast.For) and ast.unparse(s.target) == 'group_item'][0]
+    cands = [n for n in ast.walk(loop) if isinstance(n, ast.If) and ast.unparse(n.test) == 'graphic_type is not None'
+             and 'matches.append' in ast.unparse(n)]
+    if len(cands) != 1:
+        raise Unsupported(f'{meth}: graphic-type block of the loop not found')
+    block = cands[0]
+    if 'found_ref_type, ref_items = _get_volumetric_roi_reference_items(group_item)' not in ast.unparse(fn):
+        raise Unsupported(f'{meth}: ref_items are no longer the items of _get_volumetric_roi_reference_items')
+    comp = {
+        'found_gts = [GraphicTypeValues(item.GraphicType) for item in ref_items if item.value_type == ValueTypeValues.SCOORD]': 'any2d',
+        'found_gts = [GraphicTypeValues3D(item.GraphicType) for item in ref_items if item.value_type == ValueTypeValues.SCOORD3D]': 'any3d',
+    }
+
+    class R(ast.NodeTransformer):
+        def visit_Call(self, node):
+            if ast.unparse(node.func) == 'isinstance' and ast.unparse(node.args[0]) == 'graphic_type':
+                c = ast.unparse(node.args[1])
+                if c == 'GraphicTypeValues':
+                    return ast.Name(id='is2d', ctx=ast.Load())
+                raise Unsupported(f'isinstance(graphic_type, {c})')
+            raise Unsupported(f'{meth}: call `{ast.unparse(node)}` in the graphic-type block')
+
+        def visit_Assign(self, node):
+            t = ' '.join(ast.unparse(node).split())
+            if t in comp:
+                return ast.Assign(targets=[ast.Name(id='found_gts', ctx=ast.Store())], value=ast.Name(id=comp[t], ctx=ast.Load()))
+            raise Unsupported(f'{meth}: assignment `{t}` in the graphic-type block')
+
+        def visit_Expr(self, node):
+            if ast.unparse(node) == 'matches.append(graphic_type in found_gts)':
+                return ast.Return(value=ast.Name(id='found_gts', ctx=ast.Load()))
+            raise Unsupported(f'{meth}: statement `{ast.unparse(node)}` in the graphic-type block')
+
+        def visit_Compare(self, node):
+            raise Unsupported(f'{meth}: comparison `{ast.unparse(node)}` in the graphic-type block')
+    stmts = [R().visit(ast.parse(ast.unparse(st)).body[0]) for st in block.body]
+    for x in stmts:
+        ast.fix_missing_locations(x)
+    part = translate_block(stmts, 'volumetricGraphicEntry', [('is2d', 'bool'), ('any2d', 'bool'), ('any3d', 'bool')], {},
+                           doc=f'`{meth}`: the entry the graphic-type filter appends to `matches` (any2d / any3d: some SCOORD / '
+                               'SCOORD3D reference item has the graphic type asked for)')
+    return part, ast.unparse(block)
+
+
 # ---------------------------------------------------------------- T16f: the graphic-type entry of `matches`
 def build_T16f(tree):
     """The `if graphic_type is not None:` block inside the loops of the planar and volumetric query, as a decision over
     (graphic_type is a 2-D enum member, value type of the (first) reference item, graphic type equal).
       Gen.planarGraphicEntry / Gen.volumetricGraphicEntry (is2d : Bool) (ref_vt : String) (graphic_equal : Bool) : Bool"""
     parts, shas = [], []
-    for meth, nm in (('get_planar_roi_measurement_groups', 'planarGraphicEntry'),
-                     ('get_volumetric_roi_measurement_groups', 'volumetricGraphicEntry')):
+    vp, vs = _build_T16f_volumetric(tree)
+    for meth, nm in (('get_planar_roi_measurement_groups', 'planarGraphicEntry'),):
         fn = find_func(tree, f'MeasurementReport.{meth}')
         loop = [s for s in strip_doc(fn.body) if isinstance(s, ast.For) and ast.unparse(s.target) == 'group_item'][0]
         cands = [n for n in ast.walk(loop) if isinstance(n, ast.If) and ast.unparse(n.test) == 'graphic_type is not None'
@@ -550,6 +629,8 @@ def build_T16f(tree):
         parts.append(translate_block(stmts, nm, [('is2d', 'bool'), ('ref_vt', 'str'), ('graphic_equal', 'bool')], {},
                                      doc=f'`{meth}`: the entry the graphic-type filter appends to `matches`'))
         shas.append(ast.unparse(block))
+    parts.append(vp)
+    shas.append(vs)
     return '\n\n'.join(parts), hashlib.sha256('\n'.join(shas).encode()).hexdigest()
 
 
